@@ -11,25 +11,31 @@ The YAML reading itself is a parameter (taken from the real library by the harne
 -/
 namespace Heimdall.Config
 
-/-- a YAML scalar as the loader sees it; a float carries the text `strconv.FormatFloat(f, 'f', -1, 64)` gives it -/
+/-- a YAML scalar as the loader sees it; a float carries the text `strconv.FormatFloat(f, 'f', -1, 64)` gives it;
+    `null` is Go's nil; `coll` stands for a list or a map -/
 inductive Scalar where
   | str (s : List Char)
   | int (n : Int)
   | bool (b : Bool)
   | float (shown : List Char)
   | null
+  | coll
 deriving Repr, DecidableEq
 
 /-- the type of a leaf of the configuration struct; `text` are the leaves a decode hook parses from a string
-    (durations, byte sizes, log level, TLS versions) -/
+    (durations, byte sizes, log level, TLS versions); `any` is a member of a free-form map (the `config` of a
+    mechanism, `cache.config`, a provider) -/
 inductive LeafType where
   | string
   | int
   | bool
   | text
+  | any
 deriving Repr, DecidableEq
 
-/-- what the decoder leaves at the leaf -/
+/-- what the decoder leaves at the leaf; `zero`: the decoder does not touch the target (mapstructure returns at once
+    for a nil input), which keeps what it held before – the default of the property, the zero value if it has none;
+    `raw`: an untyped leaf holds the scalar as YAML read it -/
 inductive Leaf where
   | str (s : List Char)
   | int (n : Int)
@@ -38,6 +44,7 @@ inductive Leaf where
   | zero
   | fail
   | unsupported
+  | raw (y : Scalar)
 deriving Repr, DecidableEq
 
 /-- `strconv.Itoa` -/
@@ -63,8 +70,15 @@ def numeralLike (s : List Char) : Bool :=
   | c :: _ => (digitVal c).isSome || c == '-' || c == '+' || c == '.'
   | [] => true
 
-/-- mapstructure's weakly typed decoding of a scalar into a leaf of the given type -/
+/-- mapstructure's weakly typed decoding of a scalar into a leaf of the given type; `null` is Go's nil (the empty
+    variable, `null`, `~`), `coll` a text YAML reads as a list or a map (`[]`, `{}`) -/
 def decode : LeafType → Scalar → Leaf
+  | .any, .coll => .unsupported
+  | .any, y => .raw y
+  | .string, .coll => .fail
+  | .int, .coll => .fail
+  | .bool, .coll => .fail
+  | .text, .coll => .fail
   | .string, .str s => .str s
   | .string, .int n => .str (showInt n)
   | .string, .bool b => .str (if b then c!"1" else c!"0")
@@ -75,7 +89,7 @@ def decode : LeafType → Scalar → Leaf
   | .int, .str s =>
     match parseCanon? s with
     | some n => .int n
-    | none => if numeralLike s then .unsupported else .fail
+    | none => if s = [] then .int 0 else if numeralLike s then .unsupported else .fail
   | .int, .float _ => .unsupported
   | .int, .null => .zero
   | .bool, .bool b => .bool b
@@ -83,11 +97,17 @@ def decode : LeafType → Scalar → Leaf
   | .bool, .str s =>
     match parseBool? s with
     | some b => .bool b
-    | none => .fail
+    | none => if s = [] then .bool false else .fail
   | .bool, .float _ => .unsupported
   | .bool, .null => .zero
   | .text, .str s => .text s
   | .text, .null => .zero
   | .text, _ => .unsupported
+
+/-- the leaf after decoding when the target held `dflt` before -/
+def decodeOver (t : LeafType) (dflt : Leaf) (y : Scalar) : Leaf :=
+  match decode t y with
+  | .zero => dflt
+  | l => l
 
 end Heimdall.Config
